@@ -12,7 +12,7 @@ CLAIMS = {
     'C02': (
         'model_checking',
         'Two bound models. (1) spec/SerfReplica.tla: TLC checks the step clauses (status time only grows; an intent or synced intent not newer than the stored time changes nothing) exhaustively on the open single-replica model and on every step of simulated input sequences executed on a real Serf node. (2) spec/SerfCluster.tla: N replicas composed from the same handler operators with a gossip pool (any order, duplication, loss), one-directional push/pull with current LocalState, memberlist notifications in causal order plus bounded spurious detections, join / leave (blocking split) / force-leave / crash; TLC checks the agreement clause in every quiet sync state exhaustively for 2 nodes (formed and from scratch) and 3 formed nodes (thorough), and TLC-simulated schedules are executed on 2-3 real quiet Serf nodes, the harness then performs the sync closure for real (every delivery, push/pull and truthful notification until two rounds change no view) and TLC validates every step and judges agreement on the observed views. Four genuine agreement defects found this way are recorded known findings (tags).',
-        'Trusts TLC, the overlay accessor, the wire mirror. Viewers are running members that have not begun leaving; a leave counts as known only once its intent was handed to the network (a node that believes it has no alive peer leaves silently); quiescence is over statuses/lists/queues because status times of left members keep growing through push/pull. memberlist itself is the modelled environment here (C01 runs real memberlist). Prune intents are exercised in the single-replica model only (handlePrune sleeps BroadcastTimeout).',
+        'Trusts TLC, the overlay accessor, the wire mirror. Viewers are running members that have not begun leaving; a leave counts as known only once its intent was handed to the network (a node that believes it has no alive peer leaves silently); quiescence is over statuses/lists/queues because status times of left members keep growing through push/pull. memberlist itself is the modelled environment here (C01 runs real memberlist). Prune intents are exercised in the single-replica model only (handlePrune sleeps BroadcastTimeout). The cluster model restarts only crashed members; a member coming back after a graceful leave is exercised in the single-replica model (list consistency, C15) and on real clusters (C01).',
         'TLA+ specs (SerfHandlers/SerfReplica/SerfCluster) + TLC exhaustive checks; TLC-simulated schedules replayed on real quiet Serf nodes; TLC trace validation of every step with property monitors on observed state',
         '5 C02',
     ),
